@@ -143,6 +143,15 @@ impl<T: CancelIo> CancelImpl<T> {
         }
     }
 
+    // cancel the coroutine that is waiting in `slot` (if it is still there)
+    // used by the event sources for the re-check after they registered the slot
+    pub fn cancel_slot(slot: &AtomicOption<CoroutineImpl>) {
+        if let Some(mut co) = slot.take() {
+            set_co_para(&mut co, io::Error::other("Canceled"));
+            get_scheduler().schedule(co);
+        }
+    }
+
     // clear the cancel bit so that we can reuse the cancel
     #[cfg(unix)]
     pub fn clear_cancel_bit(&self) {
